@@ -177,6 +177,11 @@ type Member struct {
 	Assigns    []Assign
 	Modality   string
 	Expect     *Expr
+	// ExpKind "sig": the predicate is `[ExpVar] > ExpK` (ExpGt) or `[ExpVar] < ExpK`
+	ExpKind string
+	ExpVar  [2]string
+	ExpK    int64
+	ExpGt   bool
 	WatchSigs  [][2]string
 	WatchVars  []string
 	FoulBad    string // "", ignore, foul upon, require
@@ -218,6 +223,10 @@ type Gen struct {
 	// whose condition never holds, and `expects like` members declared after
 	// the first interpretation section.
 	VerdictBias bool
+	// probability that an `expects` predicate is a plain `[actor s] > k` / `< k`
+	SimpleExpect float64
+	// conditions without variables (`2 == 2`, `1 == 2`)
+	ConstConds bool
 }
 
 func (g *Gen) pick(xs []string) string { return xs[g.R.Intn(len(xs))] }
@@ -373,6 +382,17 @@ func (g *Gen) Config() *Config {
 			m.CondK = int64(1 + g.R.Intn(5))
 			m.Cond = Bin(g.pick([]string{">", "<"}), V("", "t"), Num(m.CondK))
 		default:
+			if g.ConstConds && g.R.Intn(3) == 0 {
+				// a condition without any variable (what `audits only while ~strict~ == 1` becomes)
+				if g.R.Intn(2) == 0 {
+					m.CondKind = "consttrue"
+					m.Cond = Bin("==", Num(2), Num(2))
+				} else {
+					m.CondKind = "constfalse"
+					m.Cond = Bin("==", Num(1), Num(2))
+				}
+				break
+			}
 			m.CondKind = "other"
 			m.Cond = g.boolExpr(c, 2, true)
 			if g.R.Float64() < g.PErrOther {
@@ -419,6 +439,18 @@ func (g *Gen) Config() *Config {
 			m.Modality = g.pick(g.Modalities)
 			if g.R.Float64() < g.PErrExpr {
 				m.Expect = g.illTyped(c)
+			} else if g.SimpleExpect > 0 && g.R.Float64() < g.SimpleExpect {
+				// a plain comparison of one scalar signal with a constant: the observations of a
+				// period can then be read off the events
+				m.ExpKind = "sig"
+				m.ExpVar = [2]string{c.Actors[g.R.Intn(len(c.Actors))], "s"}
+				m.ExpK = int64(1 + g.R.Intn(4))
+				m.ExpGt = g.R.Intn(2) == 0
+				op := "<"
+				if m.ExpGt {
+					op = ">"
+				}
+				m.Expect = Bin(op, V(m.ExpVar[0], "s"), Num(m.ExpK))
 			} else {
 				// signals only, or also t / mood / moodt / computed variables
 				m.Expect = g.boolExpr(c, 2, g.R.Intn(2) == 0)
@@ -501,6 +533,7 @@ func (g *Gen) Config() *Config {
 				m.Assigns = nil
 				m.WatchSigs, m.WatchVars = nil, nil
 				m.Modality, m.Expect = y.Modality, y.Expect
+				m.ExpKind, m.ExpVar, m.ExpK, m.ExpGt = y.ExpKind, y.ExpVar, y.ExpK, y.ExpGt
 				m.CondKind, m.Cond, m.CondMood, m.CondVar, m.CondK = y.CondKind, y.Cond, y.CondMood, y.CondVar, y.CondK
 				m.ClauseOrdr = []string{m.Name + " expects like " + y.Name}
 			}
